@@ -444,7 +444,12 @@ func (c *capture) Parse(ctx *parseContext, parent reflect.Value) (out []reflect.
 		if first := ctx.firstMatch; first >= start && first <= ctx.RawCursor() {
 			from = first
 		}
-		ctx.Defer(ctx.Range(from, ctx.RawCursor()), parent, c.field, v)
+		end := ctx.RawCursor()
+		if from == end && ctx.firstMatch == end {
+			// All the capture matched is the EOF token, which is never consumed: it is the run (and locates errors).
+			end++
+		}
+		ctx.Defer(ctx.Range(from, end), parent, c.field, v)
 	}
 	if outer >= 0 {
 		ctx.firstMatch = outer
